@@ -1,5 +1,8 @@
 """C05 — signature hashes: legacy / BIP143 / BIP341(+342), dispatch, history independence."""
+import contextlib
+import copy
 import hashlib
+import io
 import itertools
 
 import buidl.tx as btx
@@ -68,18 +71,26 @@ def mk_tx(v, spent):
     return Tx(ver, tins, [mk_txout(o) for o in outs], lt, network="mainnet", segwit=True)
 
 
+def _copy_script(s):
+    """A new Script object with the same commands / raw bytes (nothing memoised on the old object is shared)."""
+    if s is None:
+        return None
+    n = Script([bytes(c) if isinstance(c, (bytes, bytearray)) else c for c in s.commands])
+    n.raw = s.raw
+    return n
+
+
 def fresh_copy(t):
-    """A new Tx object (empty memo fields) with the current field values of t."""
+    """A new Tx object (empty memo fields) with the current field values of t; inputs, outputs, scripts and
+    witnesses are new objects too, so that a value memoised on any of them is not carried over."""
     ins = []
     for ti in t.tx_ins:
-        s = Script(list(ti.script_sig.commands))
-        s.raw = ti.script_sig.raw
-        n = TxIn(ti.prev_tx, ti.prev_index, s, int(ti.sequence))
-        n.witness = Witness(list(ti.witness.items))
+        n = TxIn(bytes(ti.prev_tx), ti.prev_index, _copy_script(ti.script_sig), int(ti.sequence))
+        n.witness = Witness([bytes(x) for x in ti.witness.items])
         n._value = ti._value
-        n._script_pubkey = ti._script_pubkey
+        n._script_pubkey = _copy_script(ti._script_pubkey)
         ins.append(n)
-    outs = [TxOut(o.amount, o.script_pubkey) for o in t.tx_outs]
+    outs = [TxOut(o.amount, _copy_script(o.script_pubkey)) for o in t.tx_outs]
     return Tx(t.version, ins, outs, int(t.locktime), network=t.network, segwit=t.segwit)
 
 
@@ -593,6 +604,219 @@ def p_history_fresh(tx, spent, ops):
     return None
 
 
+# ---------------------------------------------------------------------------
+# extended histories (property predicate only; the Coq history model knows operations 0..5)
+#
+# operations 1..5 as above (indices taken modulo the current length, == length appends) plus
+#   6 remove output        7 insert output         8 remove input          9 insert input
+#  10 set version          11 spent amount of an input (TxIn._value)       12 spent scriptPubKey of an input
+#  13 output amount, in place on the TxOut object     14 output script replaced on the TxOut object
+#  15 outpoint (prev_tx, prev_index) in place         16 script_sig replaced
+#  17 witness items mutated in place (append / pop / replace last) on the SAME Witness object
+#  18 a data element of an output script overwritten in place (same Script object)
+#  19 a data element of the spent scriptPubKey overwritten in place (same length, same template)
+#  20 list-level edits: outputs reversed in place, first/last input swapped in place, tx_outs / tx_ins rebound to a copy
+#  21 segwit flag toggled (no influence on any digest)
+EDIT_NAMES = {1: "output-replace/append", 2: "input-replace/append", 3: "sequence", 4: "locktime", 5: "witness-replace",
+              6: "output-remove", 7: "output-insert", 8: "input-remove", 9: "input-insert", 10: "version",
+              11: "spent-amount", 12: "spent-scriptpubkey", 13: "output-amount-in-place", 14: "output-script-in-place",
+              15: "outpoint-in-place", 16: "script_sig", 17: "witness-items-in-place", 18: "output-script-element-in-place",
+              19: "spent-script-element-in-place", 20: "list-level", 21: "segwit-flag"}
+
+
+def _first_data(cmds):
+    for j, c in enumerate(cmds):
+        if isinstance(c, bytes) and len(c) > 0:
+            return j
+    return None
+
+
+def apply_ext(t, sh, op):
+    """Applies one edit to the Tx object t and, in parallel, to the shadow canonical value sh = [tx, spent]."""
+    tx, spent = sh
+    ins, outs = tx[1], tx[2]
+    op = copy.deepcopy(op)          # values stored in the shadow are edited in place later on
+    k = op[0]
+    if k == 1:
+        i = op[1] % (len(outs) + 1)
+        if i == len(outs):
+            t.tx_outs.append(mk_txout(op[2]))
+            outs.append(op[2])
+        else:
+            t.tx_outs[i] = mk_txout(op[2])
+            outs[i] = op[2]
+    elif k == 2:
+        i = op[1] % (len(ins) + 1)
+        if i == len(ins):
+            t.tx_ins.append(mk_txin(op[2], op[3]))
+            ins.append(op[2])
+            spent.append(op[3])
+        else:
+            t.tx_ins[i] = mk_txin(op[2], op[3])
+            ins[i], spent[i] = op[2], op[3]
+    elif k == 3:
+        i = op[1] % len(ins)
+        t.tx_ins[i].sequence = Sequence(op[2])
+        ins[i][3] = op[2]
+    elif k == 4:
+        t.locktime = Locktime(op[1])
+        tx[3] = op[1]
+    elif k == 5:
+        i = op[1] % len(ins)
+        t.tx_ins[i].witness = Witness(list(op[2]))
+        ins[i][4] = list(op[2])
+    elif k == 6:
+        if outs:
+            i = op[1] % len(outs)
+            del t.tx_outs[i]
+            del outs[i]
+    elif k == 7:
+        i = op[1] % (len(outs) + 1)
+        t.tx_outs.insert(i, mk_txout(op[2]))
+        outs.insert(i, op[2])
+    elif k == 8:
+        if len(ins) > 1:
+            i = op[1] % len(ins)
+            del t.tx_ins[i]
+            del ins[i]
+            del spent[i]
+    elif k == 9:
+        i = op[1] % (len(ins) + 1)
+        t.tx_ins.insert(i, mk_txin(op[2], op[3]))
+        ins.insert(i, op[2])
+        spent.insert(i, op[3])
+    elif k == 10:
+        t.version = op[1]
+        tx[0] = op[1]
+    elif k == 11:
+        i = op[1] % len(ins)
+        t.tx_ins[i]._value = op[2]
+        spent[i][0] = op[2]
+    elif k == 12:
+        i = op[1] % len(ins)
+        t.tx_ins[i]._script_pubkey = mk_script(op[2])
+        spent[i][1] = op[2]
+    elif k == 13:
+        if outs:
+            i = op[1] % len(outs)
+            t.tx_outs[i].amount = op[2]
+            outs[i][0] = op[2]
+    elif k == 14:
+        if outs:
+            i = op[1] % len(outs)
+            t.tx_outs[i].script_pubkey = mk_script(op[2])
+            outs[i][1] = op[2]
+    elif k == 15:
+        i = op[1] % len(ins)
+        t.tx_ins[i].prev_tx, t.tx_ins[i].prev_index = op[2], op[3]
+        ins[i][0], ins[i][1] = op[2], op[3]
+    elif k == 16:
+        i = op[1] % len(ins)
+        t.tx_ins[i].script_sig = mk_script(op[2])
+        ins[i][2] = op[2]
+    elif k == 17:
+        i = op[1] % len(ins)
+        items, w = t.tx_ins[i].witness.items, ins[i][4]
+        if op[2] == 0 or not w:
+            items.append(op[3])
+            w.append(op[3])
+        elif op[2] == 1:
+            items.pop()
+            w.pop()
+        else:
+            items[-1] = op[3]
+            w[-1] = op[3]
+    elif k in (18, 19):
+        if k == 18 and not outs:
+            return
+        i = op[1] % len(outs if k == 18 else ins)
+        obj = t.tx_outs[i].script_pubkey if k == 18 else t.tx_ins[i]._script_pubkey
+        val = outs[i][1] if k == 18 else spent[i][1]
+        j = _first_data(val[0])
+        if j is None or val[1]:
+            return
+        n = len(val[0][j])
+        new = (op[2] * (n // len(op[2]) + 1))[:n]
+        obj.commands[j] = new
+        val[0][j] = new
+    elif k == 20:
+        if op[1] == 0:
+            t.tx_outs.reverse()
+            outs.reverse()
+        elif op[1] == 1:
+            t.tx_ins[0], t.tx_ins[-1] = t.tx_ins[-1], t.tx_ins[0]
+            ins[0], ins[-1] = ins[-1], ins[0]
+            spent[0], spent[-1] = spent[-1], spent[0]
+        elif op[1] == 2:
+            t.tx_outs = list(t.tx_outs)
+        else:
+            t.tx_ins = list(t.tx_ins)
+    elif k == 21:
+        t.segwit = not t.segwit
+    else:
+        raise ValueError("unknown operation %r" % (k,))
+
+
+def ref_query(sh, alg, idx, ht):
+    """What the standards say for this query on the shadow value: [alg, [preimage], digest], or None = no claim."""
+    tx, spent = sh
+    if idx >= len(tx[1]):
+        return None
+    k = alg[0]
+    if k == 3:
+        return ref_sig_hash(tx, spent, idx, ht)
+    t = RTx(tx, spent)
+    if k == 0:
+        code = ref_raw_script(alg[1][0] if alg[1] else spent[idx][1])
+        p, d = ref_legacy(t, code, idx, ht)
+        return [0, [] if p is None else [p], int.from_bytes(d, "big")]
+    if k == 1:
+        if not alg[2]:
+            return None
+        p, d = ref_bip143(t, ref_raw_script(alg[2][0]), t.coins[idx][0], idx, ht)
+        return [143, [p], int.from_bytes(d, "big")]
+    w = t.vin[idx][4]
+    annex, stack = ref_split_annex(w)
+    if alg[1] == 0:
+        r = ref_bip341(t, idx, ht, ([stack[0]] if stack else [b"\x00" * 64]) + ([annex] if annex is not None else []))
+    elif len(stack) >= 2:
+        r = ref_bip341(t, idx, ht, w)
+    else:
+        return None
+    return None if r is None else [341, [r[0]], r[1]]
+
+
+def p_history_ext(tx, spent, ops):
+    """One Tx object through a sequence of digest queries (all three builders and the dispatcher, any input, any hash
+    type) and edits of every public field: each query equals (a) the same query on a brand-new object tree built
+    from the current fields and (b) the independent reference evaluated on a shadow copy of the current values."""
+    with contextlib.redirect_stdout(io.StringIO()):      # Script.parse prints a note for inexact parses
+        return _history_ext(tx, spent, ops)
+
+
+def _history_ext(tx, spent, ops, stats=None):
+    t = mk_tx(tx, spent)
+    sh = copy.deepcopy([tx, spent])
+    for step, op in enumerate(ops):
+        if op[0] != 0:
+            apply_ext(t, sh, op)
+            continue
+        idx = op[2] % len(t.tx_ins)
+        f = fresh_copy(t)
+        a = guarded(lambda: run_query(t, op[1], idx, op[3]))
+        b = guarded(lambda: run_query(f, op[1], idx, op[3]))
+        if a != b:
+            return (f"step {step}: the object with this history returned {_show(a)}, a fresh object with the same "
+                    f"fields {_show(b)}")
+        ref = ref_query(sh, op[1], idx, op[3])
+        if stats is not None:
+            stats[(op[1][0], "raises" if a is ERR else "digest", "no-claim" if ref is None else "reference")] += 1
+        if ref is not None and a != ref:
+            return (f"step {step}: the object with this history returned {_show(a)}, the reference for the current "
+                    f"transaction gives {_show(ref)}")
+    return None
+
+
 def p_script_code_raw(tx, spent, idx, ht):
     """(known finding) the script code of a P2WSH / P2SH spend is the witness / redeem script AS GIVEN."""
     return p_digest_eq_reference(tx, spent, idx, ht)
@@ -604,6 +828,7 @@ PROPS = {
     "single_no_output": p_single_no_output,
     "has_annex_bip341": p_has_annex,
     "history_fresh": p_history_fresh,
+    "history_ext": p_history_ext,
     "script_code_raw": p_script_code_raw,
 }
 
@@ -791,6 +1016,104 @@ def history_alphabet(ctx, tx, spent, variant):
     ]
 
 
+def r_edit(ctx, k):
+    """one random edit of kind k (indices are reduced modulo the current length when applied)"""
+    r = ctx.rng
+    i = r.randrange(12)
+    if k in (1, 7):
+        return [k, i, [r_amount(r), r_out_script(ctx)]]
+    if k in (2, 9):
+        ni, ns = make_input(ctx, r.choice(KINDS))
+        return [k, i, ni, ns]
+    if k == 3:
+        return [3, i, r_seq(r)]
+    if k == 4:
+        return [4, r_lock(r)]
+    if k == 5:
+        return [5, i, r.choice([[ctx.rbytes(64)], [ctx.rbytes(64), r_annex(ctx)], [ctx.rbytes(65)],
+                                [ctx.rbytes(64), ref_raw_script(S([ctx.rbytes(32), 0xac])), control_block(ctx)],
+                                [b"", r_sig(ctx), ref_raw_script(S([0x51]))]])]
+    if k in (6, 8):
+        return [k, i]
+    if k == 10:
+        return [10, r_version(r)]
+    if k == 11:
+        return [11, i, r_amount(r)]
+    if k == 12:
+        return [12, i, r.choice([S([0x76, 0xa9, ctx.rbytes(20), 0x88, 0xac]), S([0x00, ctx.rbytes(20)]),
+                                 S([0x51, ctx.rbytes(32)]), S([0x00, ctx.rbytes(32)]), S([ctx.rbytes(33), 0xac])])]
+    if k == 13:
+        return [13, i, r_amount(r)]
+    if k == 14:
+        return [14, i, r_out_script(ctx)]
+    if k == 15:
+        return [15, i, ctx.rbytes(32), r.choice([0, 1, 0xffffffff, r.getrandbits(32)])]
+    if k == 16:
+        return [16, i, r.choice([S([]), S([r_sig(ctx), b"\x02" + ctx.rbytes(32)]), S([b"\x00\x14" + ctx.rbytes(20)]),
+                                 S([0, r_sig(ctx), ref_raw_script(S(multisig_cmds(ctx, 1, 2)))])])]
+    if k == 17:
+        return [17, i, r.randrange(3), r.choice([r_annex(ctx), ctx.rbytes(64), ref_raw_script(S([0x51])), b"\x50"])]
+    if k in (18, 19):
+        return [k, i, ctx.rbytes(4)]
+    if k == 20:
+        return [20, r.randrange(4)]
+    return [21]
+
+
+def r_query(ctx, dispatch_only=False):
+    r = ctx.rng
+    ht = r.choice(HASH_TYPES)
+    i = r.randrange(12)
+    k = r.random()
+    if dispatch_only or k < 0.5:
+        return [0, [3], i, ht]
+    if k < 0.65:
+        return [0, [0, r.choice([[], [S(multisig_cmds(ctx, 1, 2))], [S([0x76, 0xa9, ctx.rbytes(20), 0x88, 0xac])]])], i, ht]
+    if k < 0.8:
+        return [0, [1, [], r.choice([[S([0x51])], [S(multisig_cmds(ctx, 2, 2))], []])], i, ht]
+    return [0, [2, r.choice([0, 0, 1])], i, ht]
+
+
+EDIT_KINDS = sorted(EDIT_NAMES)
+
+
+def ext_histories(ctx):
+    r = ctx.rng
+    bases = [["p2wpkh", "p2tr-key", "p2pkh"], ["p2tr-script", "p2wsh"], ["p2sh-p2wpkh", "p2tr-key-annex", "bare", "p2wpkh"],
+             ["p2sh-multisig", "p2tr-script-annex"], ["p2sh-p2wsh", "p2pkh", "p2tr-key"]]
+    for bi in range(ctx.n(4, 10)):
+        kinds = bases[bi % len(bases)]
+        tx, spent = make_tx(ctx, len(kinds), r.choice([2, 3]), kinds)
+        # (a) ask, edit, ask the same again — every kind of edit x one query per builder and input
+        queries = [[0, [3], i, ht] for i in range(len(kinds)) for ht in (1, 3, 0x81)]
+        queries += [[0, [0, [S(multisig_cmds(ctx, 1, 2))]], 0, 1], [0, [0, []], len(kinds) - 1, 0x83],
+                    [0, [1, [], [S([0x51])]], 0, 1], [0, [1, [], [S([0x51])]], 1, 2],
+                    [0, [2, 0], 1, 0], [0, [2, 0], 0, 0x83]]
+        for k in EDIT_KINDS:
+            for q in queries:
+                ctx.label("history-ext/ask-edit-ask/" + EDIT_NAMES[k])
+                yield ("prop", "history_ext", [tx, spent, [q, r_edit(ctx, k), q]])
+        # (b) the three builders and the dispatcher interleaved on one object around one edit
+        for k in EDIT_KINDS:
+            for _ in range(ctx.n(2, 12)):
+                pre = [r_query(ctx) for _ in range(3)]
+                ctx.label("history-ext/interleaved-builders")
+                yield ("prop", "history_ext", [tx, spent, pre + [r_edit(ctx, k)] + [r.choice(pre), r_query(ctx), r.choice(pre)]])
+        # (c) random walks: queries and edits of every kind mixed, 6..14 steps
+        for _ in range(ctx.n(120, 1500)):
+            ops = [r_query(ctx)]
+            for _ in range(r.randrange(2, 6)):
+                for _ in range(r.choice([1, 1, 2])):
+                    k = r.choice(EDIT_KINDS)
+                    ctx.label("history-ext/walk/" + EDIT_NAMES[k])
+                    ops.append(r_edit(ctx, k))
+                ops.append(r_query(ctx))
+                if r.random() < 0.4:
+                    ops.append(list(r.choice([o for o in ops if o[0] == 0])))
+            yield ("prop", "history_ext", [tx, spent, ops])
+
+
+
 def generate(ctx):
     r = ctx.rng
     # --- Witness.has_annex: exhaustive small shapes + random
@@ -936,3 +1259,6 @@ def generate(ctx):
             ctx.label(f"history/len={ln}")
             yield ("corr", "history", [tx, spent, ops])
             yield ("prop", "history_fresh", [tx, spent, ops])
+
+    # --- extended histories: every public field edited, inputs/outputs added and removed, all builders on one object
+    yield from ext_histories(ctx)
